@@ -260,6 +260,17 @@ where
                 pis[i] = if newv == pis[i] { pis[i] + F::ONE } else { newv };
                 claimed_pis = Some(pis);
             }
+            3 if corr.val & 1 == 1 => {
+                // F4c: one hash wire of the public-input gate detached from its class
+                fam_name = "F4_pi_gate_wire";
+                let Some(pi_row) = built.instances.iter().position(|g| g.gate_ref.0.id().starts_with("PublicInputGate")) else { continue };
+                let cell = pi_row * num_wires + (corr.pos as usize % 4);
+                let mut m = repmap.clone();
+                let old = values[m[cell]].unwrap_or(F::ZERO);
+                values.push(Some(if newv == old { old + F::ONE } else { newv }));
+                m[cell] = values.len() - 1;
+                owned_map = Some(m);
+            }
             3 => {
                 // F4b: overwrite the class of a public-input target
                 fam_name = "F4_pi_class";
